@@ -228,6 +228,41 @@ nd::harnesses! {
         drop(base);
     }
 
+    /// A FAILED cast / into of a group with a context releases the context it consumed; an owned child
+    /// obtained through an integer-coded method holds its own clone.
+    #[kani::unwind(4)]
+    fn c07_failed_cast_and_int_result_child() {
+        reset();
+        ctx_reset();
+        let v: u32 = nd::any();
+        let base = Ctx::new();
+        {
+            let grp = group_obj!((D2(Pay::new(v)), base.clone()) as DupGrp);
+            assert!(ctx_live() == 2 && !grp.check_impl_clone());
+            if nd::any() {
+                assert!(cast!(grp impl Clone).is_none());
+            } else {
+                assert!(into!(grp impl Clone).is_none());
+            }
+            assert!(ctx_live() == 1, "a failed cast releases the context of the group it consumed");
+            assert!(live() == 0);
+        }
+        {
+            let fail: bool = nd::any();
+            let obj = trait_obj!((P::new(v), base.clone()) as TryMaker);
+            let child = obj.try_make(fail);
+            assert!(child.is_ok() == !fail);
+            assert!(ctx_live() == if fail { 2 } else { 3 }, "an owned child obtained through an integer-coded method holds its own clone");
+            drop(obj);
+            if let Ok(c) = &child {
+                assert!(c.val() == v ^ 6 && ctx_live() == 2);
+            }
+            drop(child);
+        }
+        assert!(ctx_live() == 1 && live() == 0 && drops() == made());
+        drop(base);
+    }
+
     /// Clone (extension trait), `Self` return and casts of a group with a context.
     #[kani::unwind(4)]
     fn c07_clone_cast_selfreturn() {
